@@ -4,7 +4,10 @@
 (* ok or an error, no handler panics, no lock stays poisoned, and the next *)
 (* commands of another client still work: the probe write is accepted and  *)
 (* the probe read returns what was written.  Lines the parser must reject  *)
-(* (unknown word, empty line) are errors that change nothing.              *)
+(* (unknown word, empty line) are errors that change nothing.  The node's  *)
+(* replication loop (a service thread of the real process) is run next to  *)
+(* the handlers and fed what they queue: it must still be alive after      *)
+(* every line (svcdead).                                                   *)
 (***************************************************************************)
 EXTENDS Integers, Sequences, FiniteSets, TLC, Json, IOUtils
 
@@ -16,7 +19,7 @@ VARIABLES l, pv, last, used
 tvars == <<l, pv, last, used>>
 E == Rec[l]
 
-Answered(cls) == cls \in {"ok", "value", "error", "verr"}
+Answered(cls) == cls \in {"ok", "value", "error", "verr"} /\ ~E.svcdead
 
 TraceInit == l = 1 /\ pv = "" /\ last = <<>> /\ used = {} /\ TLCSet(1, 0)
 
@@ -31,17 +34,17 @@ Fuzz == /\ E.ev = "cmd" /\ E.op = "fuzz"
         /\ last' = E.dbs /\ UNCHANGED <<pv, used>>
 
 Garbage == /\ E.ev = "cmd" /\ E.op = "garbage"
-           /\ E.cls = "error" /\ ~E.poisoned /\ E.dbs = last
+           /\ E.cls = "error" /\ ~E.poisoned /\ ~E.svcdead /\ E.dbs = last
            /\ UNCHANGED <<pv, last, used>>
 
 ProbeSet == /\ E.ev = "cmd" /\ E.op = "probe-set"
-            /\ E.cls = "ok" /\ ~E.poisoned
+            /\ E.cls = "ok" /\ ~E.poisoned /\ ~E.svcdead
             /\ "d" \in DOMAIN E.dbs /\ "probe" \in DOMAIN E.dbs["d"].keys
             /\ E.dbs["d"].keys["probe"][1] = E.v /\ E.dbs["d"].keys["probe"][3] # "Deleted"
             /\ pv' = E.v /\ last' = E.dbs /\ UNCHANGED used
 
 ProbeGet == /\ E.ev = "cmd" /\ E.op = "probe-get"
-            /\ E.cls = "value" /\ E.rv = pv /\ ~E.poisoned
+            /\ E.cls = "value" /\ E.rv = pv /\ ~E.poisoned /\ ~E.svcdead
             /\ last' = E.dbs /\ UNCHANGED <<pv, used>>
 
 TraceNext == l <= Len(Rec) /\ l' = l + 1 /\ (Reset \/ Setup \/ Fuzz \/ Garbage \/ ProbeSet \/ ProbeGet)
